@@ -144,6 +144,7 @@ func cmdDump(args []string) int {
 		for _, o := range r.VC.obls {
 			fmt.Printf("   %-8s %-7s %5.2fs %s  %v\n", o.Kind, o.Status, o.Seconds, o.Name, o.Props)
 			if *obl != "" && strings.Contains(o.Name, *obl) {
+				fmt.Println("; splits:", strings.Join(o.Splits, " | "))
 				fmt.Println(o.smtText(true))
 				if o.Model != "" {
 					fmt.Println(o.Model)
